@@ -8,7 +8,7 @@ def tsan_engine(sh, V, B, REPO, seed, tier, only):
     exe = os.path.join(B, 'bin', 'tsan_stress')
     tmp = os.path.join(B, 'tmp', 'tsan')
     os.makedirs(tmp, exist_ok=True)
-    scenarios = ['writers', 'sorters', 'sorters_leftover', 'sorters_exact', 'readers', 'readers_all', 'firstcrc', 'mixed']
+    scenarios = ['writers', 'sorters', 'sorters_leftover', 'sorters_exact', 'readers', 'readers_all', 'sorter_to_writer', 'firstcrc', 'mixed']
     reps = 12 if tier == 'thorough' else 3
     res = {'engine': 'tsan', 'seed': seed, 'tier': tier, 'evaluations': 0, 'distinct_nontrivial': 0,
            'rule': 'programs: 4 caller threads each with a pooled writer (zlib/zstd) sharing ONE pool of 2..16 threads; 4 caller threads with pooled sorters sharing one pool; 6 threads iterating, seeking and querying ONE reader through their own iterators (with and without verify_checksums); the first checksums of the process computed by several pool workers at once; writers and sorters mixed on one pool. Each under ThreadSanitizer, several seeds (pool sizes, key distributions). Non-trivial: every run; distinct by (program, seed).',
